@@ -994,6 +994,40 @@ func checkC25ExactIntOfFloat(r *core.Run, p *core.Program) {
 						return true
 					})
 				}
+				// negative zero passes the round-trip test (int64(-0.0) == 0 and float64(0) == -0.0) but an integer has
+				// no negative zero: the conversion must lie on a path that excludes orig == 0 (or tests the sign bit)
+				{
+					isZeroTest := func(e ast.Expr) bool {
+						be, ok := stripParens(e).(*ast.BinaryExpr)
+						if !ok || be.Op != token.EQL {
+							return false
+						}
+						for _, pair := range [][2]ast.Expr{{be.X, be.Y}, {be.Y, be.X}} {
+							if exprStr(stripParens(pair[0])) == orig {
+								if k, isC := constInt(info, pair[1]); isC && k == 0 {
+									return true
+								}
+								if tv, ok := info.Types[pair[1]]; ok && tv.Value != nil && constant.Sign(tv.Value) == 0 {
+									return true
+								}
+							}
+						}
+						return false
+					}
+					conds, pols := pathConds(a, info, f, call)
+					zeroExcluded := impliesAtomValue(info, f, conds, pols, isZeroTest, false)
+					signTested := false
+					ast.Inspect(f.Decl.Body, func(k ast.Node) bool {
+						if c, ok := k.(*ast.CallExpr); ok && c.Pos() < call.Pos() {
+							if cal := callee(info, c); cal != nil && cal.Name() == "Signbit" && len(c.Args) == 1 && exprStr(stripParens(c.Args[0])) == orig {
+								signTested = true
+							}
+						}
+						return true
+					})
+					r.Check("C25.exact-int-of-float", fmt.Sprintf("%s|%s|negative zero", f.Name(), exprStr(call)), call.Pos(), zeroExcluded || signTested,
+						"`"+exprStr(call)+"` is reached with "+orig+" == 0 possible: negative zero passes the exact round-trip test and is then written as the integer 0, which reads back as +0")
+				}
 				r.Check("C25.exact-int-of-float", fmt.Sprintf("%s|%s", f.Name(), exprStr(call)), posOr(bad, call.Pos()), !bad.IsValid(),
 					"the integer obtained with `"+exprStr(call)+"` is used on a path that is not guarded by the exact round-trip test `float("+exprStr(call)+") == "+orig+"`: a value outside the integer range (or with a fraction) is written as a wrapped or truncated integer")
 				return true
